@@ -17,6 +17,7 @@ package storage
 import (
 	"bytes"
 	"context"
+	bin "encoding/binary"
 	"os"
 	"time"
 
@@ -155,8 +156,12 @@ func (s *SSD) OnSurvey(surveyType string, payload []byte) ([]byte, bool) {
 		return nil, false
 	}
 
-	// Decode the request
+	// Decode the request, unless it announces more than it carries
 	var query lookupQuery
+	if !queryFits(payload) {
+		return nil, false
+	}
+
 	if err := binary.Unmarshal(payload, &query); err != nil {
 		return nil, false
 	}
@@ -237,6 +242,28 @@ func (s *SSD) lookup(q lookupQuery) (matches message.Frame) {
 		logging.LogError("ssd", "query lookup", err)
 	}
 	return
+}
+
+// queryFits checks that the lengths announced inside an encoded lookup query (of the ssid and of
+// the id to start from) do not exceed what is left of the payload: every element takes at least
+// one byte, and the decoder allocates what is announced before it reads the elements.
+func queryFits(payload []byte) bool {
+	words, n := bin.Uvarint(payload)
+	if n <= 0 || words > uint64(len(payload)-n) {
+		return false
+	}
+
+	// Skip the ssid, then 'from' and 'until'
+	payload = payload[n:]
+	for i := uint64(0); i < words+2; i++ {
+		if _, n = bin.Uvarint(payload); n <= 0 {
+			return false
+		}
+		payload = payload[n:]
+	}
+
+	size, n := bin.Uvarint(payload)
+	return n > 0 && size <= uint64(len(payload)-n)
 }
 
 // Close is used to gracefully close the connection.
